@@ -42,6 +42,7 @@ class GConn(object):
 class Ghost(object):
     """Base monitor.  Subclasses add oracle clauses in check()."""
     prop = "C00"
+    live = True       # False while the engine replays a prefix
 
     def __init__(self, worlds):
         self.conns = {}
